@@ -1,7 +1,7 @@
 (* C08 — A truncated file yields a prefix of its records and an error. *)
 From Coq Require Import List ZArith.
 Require Import Avro.Model.Base Avro.Model.Prim Avro.Model.Schema Avro.Model.Container.
-Require Import Avro.Proofs.ContainerP.
+Require Import Avro.Proofs.ContainerP Avro.Proofs.FileP Avro.Proofs.HeaderCutP.
 Import ListNotations.
 Open Scope Z_scope.
 
@@ -39,6 +39,33 @@ Print Assumptions C08_cut_at_end.
 Theorem C08_cut_in_magic : forall bs, len bs < 4 -> read_header bs = None.
 Proof. exact read_header_short. Qed.
 Print Assumptions C08_cut_in_magic.
+
+(* a file cut anywhere inside the header its writer produced (inside the magic
+   number, the metadata count, a key or value, the end marker or the sync marker)
+   is refused: no record is delivered and an error is returned; only with the
+   whole header present (C07_header_roundtrip) does the block loop start *)
+Theorem C08_cut_in_header : forall schema_json codec_name sync k,
+  len schema_json < two63 -> len codec_name < two63 -> len sync = 16 ->
+  (k < length (header_bytes schema_json codec_name sync))%nat ->
+  read_header (firstn k (header_bytes schema_json codec_name sync)) = None.
+Proof. intros sj cn sync k Hs Hc Hy Hk. exact (header_cut sj cn Hs Hc sync Hy k Hk). Qed.
+Print Assumptions C08_cut_in_header.
+
+(* ... and the cut exactly at the end of the header is an empty, valid file *)
+Theorem C08_cut_after_header : forall decompress read_record cb schema_json codec_name sync post fuel,
+  len schema_json < two63 -> len codec_name < two63 -> len sync = 16 ->
+  exists h, read_header (firstn (length (header_bytes schema_json codec_name sync))
+                          (header_bytes schema_json codec_name sync ++ post)) = Some (h, []) /\
+            h_sync h = sync /\
+            read_blocks decompress read_record cb (S fuel) sync 0 [] = (0%nat, FOk).
+Proof.
+  intros dc rr cb sj cn sync post fuel Hs Hc Hy.
+  exists {| h_meta := written_meta sj cn; h_sync := sync |}.
+  rewrite firstn_app_le by apply le_n. rewrite firstn_all.
+  rewrite <- (app_nil_r (header_bytes sj cn sync)). rewrite read_header_written by assumption.
+  repeat split.
+Qed.
+Print Assumptions C08_cut_after_header.
 
 (* non-vacuity: every cut position of a two-block body *)
 Example C08_ex :
